@@ -399,3 +399,21 @@ func namesFor(addr string) []string {
 }
 
 var errResolver = errors.New("scripted resolver failure")
+
+// resolverFailure returns the k-th kind of lookup failure a real resolver produces: whatever its kind, a failure is a
+// failure (names stay empty, nothing is cached). All of them wrap errResolver except the bare DNS errors.
+func resolverFailure(k int, addr string) error {
+	switch k % 6 {
+	case 0:
+		return errResolver
+	case 1:
+		return &net.DNSError{Err: "no such host", Name: addr, IsNotFound: true} // NXDOMAIN: no PTR record
+	case 2:
+		return &net.DNSError{Err: "i/o timeout", Name: addr, IsTimeout: true}
+	case 3:
+		return &net.DNSError{Err: "server misbehaving", Name: addr, IsTemporary: true}
+	case 4:
+		return fmt.Errorf("lookup %s: %w", addr, context.DeadlineExceeded)
+	}
+	return fmt.Errorf("lookup %s: %w", addr, &net.DNSError{Err: "no such host", Name: addr, IsNotFound: true})
+}
